@@ -70,7 +70,13 @@ func (s Set[T]) Has(val T) bool {
 func (s Set[T]) Copy() Set[T] {
 	ret := NewSet(s.rules)
 	for k, v := range s.vals {
-		ret.vals[k] = v
+		// Each bucket gets its own backing array: Add appends to a bucket in
+		// place while it has spare capacity, so a bucket shared between the
+		// two sets would let an Add on one of them overwrite a member the
+		// other one had added.
+		bucket := make([]T, len(v))
+		copy(bucket, v)
+		ret.vals[k] = bucket
 	}
 	return ret
 }
